@@ -193,7 +193,11 @@ def q_text(q):
     if q.get("groupby"):
         tail += " GROUP BY " + " ".join(e_text(x) for x in q["groupby"])
     if "having" in q:
-        h = q["having"]      # {"agg": aggregate, "op": ">", "n": int}: HAVING sees aggregates, not SELECT aliases
+        h = q["having"]      # {"agg": aggregate, "op": ">", "n": int}: HAVING sees aggregates, not SELECT aliases; or {"e": expression over group keys}
+    if "having" in q and "e" in q["having"]:
+        tail += " HAVING(%s)" % e_text(q["having"]["e"])
+    elif "having" in q:
+        h = q["having"]
         inner = agg_text(dict(h["agg"], **{"as": "zz"}))
         inner = inner[1:inner.rindex(" AS ?")]
         tail += " HAVING(%s %s %d)" % (inner, h["op"], h["n"])
